@@ -273,6 +273,60 @@ def proj_root(t):
     return tuple(reversed(path)), root
 
 
+def loop_early_exits(b):
+    """blocks inside a loop with an edge out of the loop that is neither the None arm of a switch on an Iterator::next() result nor the start
+    of an error return (a `?`: the target block reaches FromResidual::from_residual before anything else)"""
+    import sym
+    n = len(b.blocks)
+    reach = {}
+
+    def reachable_from(x):
+        if x not in reach:
+            seen, todo = set(), list(b.succs(x))
+            while todo:
+                y = todo.pop()
+                if y in seen:
+                    continue
+                seen.add(y)
+                todo.extend(b.succs(y))
+            reach[x] = seen
+        return reach[x]
+    prov = sym.Prov(b)
+    out = []
+    for u in range(n):
+        if not b.reachable(u) or u not in reachable_from(u):
+            continue
+        scc = {v for v in reachable_from(u) if u in reachable_from(v)} | {u}
+        for v in b.succs(u):
+            if v in scc or b.term(v)["k"] == "unreachable":
+                continue
+            t = b.term(u)
+            if t["k"] == "switch":
+                d = sym.strip(prov.op(t["discr"]))
+                is_next = d[0] == "discr" and any(x[0] == "call" and (x[4] or x[1] or "").endswith("Iterator::next") for x in sym.walk(d))
+                none_arm = [tg for val, tg in t["arms"] if val == 0]
+                if is_next and v in none_arm:
+                    continue
+            # error path: straight line from v to a from_residual call
+            w, ok, steps = v, False, 0
+            while steps < 6:
+                tw = b.term(w)
+                if tw["k"] == "call" and (tw["callee"].get("path") or "").endswith("from_residual"):
+                    ok = True
+                    break
+                nx = b.succs(w)
+                if len(nx) != 1:
+                    break
+                w = nx[0]
+                steps += 1
+            if ok:
+                continue
+            if t["k"] in ("call", "drop", "assert"):
+                continue        # cleanup / unwind edges and drops on the way out are not decisions
+            out.append(u)
+    return out
+
+
 def t06_sib(run, fx):
     """single lookups and enumeration of a format 4 sub-table go through one kernel with the raw segment values"""
     import sym
@@ -314,6 +368,13 @@ def t06_sib(run, fx):
                  "segment: mappings held in a skipped segment are looked up but not enumerated" % ", ".join(cut), "%s:%s" % (mb.file, mb.line))
     else:
         run.ok(rule, "format 4: the enumeration visits every segment (no take/skip/filter on the segment iterator)")
+    # ... and it does not leave its loops early: every loop exit is the iterator's end or an error return (`?`)
+    early = loop_early_exits(mb)
+    if early:
+        run.fail(rule, "sibling:format4:early-exit", "Format4::mappings_fn leaves its segment loop early (%d exit(s) that are neither the end of the iterator nor an "
+                 "error return): mappings of the remaining segments are looked up but not enumerated" % len(early), mb.loc(mb.term(early[0])))
+    else:
+        run.ok(rule, "format 4: the enumeration loops end only with their iterators or with an error")
     import shape
     for path in ("tables::cmap::CmapSubtable::<'a>::map_glyph", "tables::cmap::CmapSubtable::<'a>::mappings_fn"):
         b = fx.body(path)
